@@ -166,3 +166,102 @@ Section Losers.
     exists a. split; [now apply outcomes_nth|exact Pa].
   Qed.
 End Losers.
+
+(* ------------------------------------------------------------------ *)
+(* With deletes (install --atomic purges its own history when it fails, history pruning):
+   for ANY programs, every revision of the ledger that is not an untouched initial one has
+   exactly one LIVE creation — a revision is never created twice without a successful delete
+   of it in between. *)
+Lemma revs_remove_in w v l : In w (revs (remove_rev v l)) <-> In w (revs l) /\ w <> v.
+Proof.
+  unfold revs, remove_rev. split.
+  - intros H. apply in_map_iff in H. destruct H as [r [E Hr]]. apply filter_In in Hr.
+    destruct Hr as [Hr Hb]. split; [rewrite <- E; now apply in_map|].
+    subst w. intros E. rewrite E, Nat.eqb_refl in Hb. discriminate.
+  - intros [H Hne]. apply in_map_iff in H. destruct H as [r [E Hr]]. apply in_map_iff. exists r.
+    split; auto. apply filter_In. split; auto. subst w. apply Nat.eqb_neq in Hne. now rewrite Hne.
+Qed.
+
+Lemma live_creations_snoc tr c : live_creations (tr ++ [c]) = live_step (live_creations tr) c.
+Proof. unfold live_creations. rewrite fold_left_app. reflexivity. Qed.
+
+Section Live.
+  Variable K : Type.
+  Variable kh : forall e : eff, K -> K * resp e * list kev.
+  Variable dresp : forall e : eff, resp e.
+  Variable A : Type.
+  Variable l0 : list release.
+
+  Definition live_inv (ts : list (prog A)) (s : cstate K) : Prop :=
+    let live := map snd (live_creations (c_tr s)) in
+    NoDup live
+    /\ (forall v, In v live -> In v (revs (c_led s)))
+    /\ (forall v, In v (revs (c_led s)) -> In v (revs l0) \/ In v live).
+
+  Lemma live_step_none acc i e (r : resp e) out :
+    created_rev (mkCev i e r out) = None -> deleted_rev (mkCev i e r out) = None ->
+    live_step acc (mkCev i e r out) = acc.
+  Proof. intros H1 H2. unfold live_step. rewrite H1, H2. reflexivity. Qed.
+
+  Lemma deleted_rev_cluster i e (r : resp e) out :
+    is_cluster_call e = true -> deleted_rev (mkCev i e r out) = None.
+  Proof. destruct e; simpl; intros H; try discriminate; reflexivity. Qed.
+
+  Lemma live_step_inv i ts s ts' s' :
+    live_inv ts s -> step_thread K kh dresp A i ts s = Some (ts', s') -> live_inv ts' s'.
+  Proof.
+    intros [HN [HI HD]] St. apply step_thread_inv in St. destruct St as [e [k [Hn [-> ->]]]].
+    destruct (cstep_spec K kh dresp i e s) as [r [out [E Hs]]]. rewrite E. unfold live_inv. simpl.
+    rewrite live_creations_snoc.
+    destruct (is_cluster_call e) eqn:Ec.
+    - rewrite live_step_none by (first [now apply created_rev_cluster|now apply deleted_rev_cluster]). auto.
+    - destruct (Hs eq_refl) as [Hr [Hout _]]. clear Hs E.
+      revert r Hr out Hout k Hn. destruct e as [| |w|x|x|w| | | | | | |]; try discriminate; simpl in *;
+        intros r Hr out Hout k Hn; try (rewrite live_step_none by reflexivity; auto; fail).
+      + (* SCreate *)
+        destruct (has_rev (rev x) (c_led s)) eqn:Eh; simpl in *; subst r.
+        * rewrite live_step_none by reflexivity. auto.
+        * unfold live_step. simpl. rewrite map_app. simpl.
+          pose proof (has_rev_false_notin _ _ Eh) as Hnot.
+          split; [apply NoDup_snoc; auto|]. split.
+          -- intros v Hv. rewrite revs_app, in_app_iff. rewrite in_app_iff in Hv. simpl in *.
+             destruct Hv as [Hv|[Hv|[]]]; auto.
+          -- intros v Hv. rewrite revs_app, in_app_iff in Hv. rewrite in_app_iff. simpl in *.
+             destruct Hv as [Hv|[Hv|[]]]; auto. destruct (HD v Hv); auto.
+      + (* SUpdate *)
+        destruct (has_rev (rev x) (c_led s)); simpl in *; subst r; rewrite live_step_none by reflexivity; auto.
+        split; auto. split; intros v; rewrite revs_replace; auto.
+      + (* SDelete *)
+        destruct (has_rev w (c_led s)) eqn:Eh; simpl in *; subst r.
+        * unfold live_step. simpl.
+          assert (Hf : forall v, In v (map snd (filter (fun tv : nat * nat => negb (Nat.eqb (snd tv) w)) (live_creations (c_tr s))))
+                         <-> In v (map snd (live_creations (c_tr s))) /\ v <> w).
+          { intros v. rewrite !in_map_iff. split.
+            - intros [tv [Ev Hin]]. apply filter_In in Hin. destruct Hin as [Hin Hb]. split; [eauto|].
+              subst v. intros E. rewrite E, Nat.eqb_refl in Hb. discriminate.
+            - intros [[tv [Ev Hin]] Hne]. exists tv. split; auto. apply filter_In. split; auto.
+              subst v. apply Nat.eqb_neq in Hne. now rewrite Hne. }
+          split.
+          { clear -HN. induction (live_creations (c_tr s)) as [|[j u] t IH]; simpl in *; [constructor|].
+            inversion HN; subst. destruct (negb (Nat.eqb u w)); simpl; auto. constructor; auto.
+            intros Hin. apply H1. apply in_map_iff in Hin. destruct Hin as [tv [Ev Hin]].
+            apply filter_In in Hin. destruct Hin as [Hin _]. apply in_map_iff. eauto. }
+          split.
+          -- intros v Hv. apply Hf in Hv. destruct Hv as [Hv Hne]. apply revs_remove_in. auto.
+          -- intros v Hv. apply revs_remove_in in Hv. destruct Hv as [Hv Hne].
+             destruct (HD v Hv); auto. right. apply Hf. auto.
+        * rewrite live_step_none by reflexivity. auto.
+  Qed.
+
+  Theorem run_live_creator ts sch k :
+    let res := run K kh dresp A ts sch (mkC l0 k []) in
+    let live := map snd (live_creations (c_tr (snd res))) in
+    NoDup live
+    /\ (forall v, In v live -> In v (revs (c_led (snd res))))
+    /\ (forall v, In v (revs (c_led (snd res))) -> In v (revs l0) \/ In v live).
+  Proof.
+    intros res live.
+    apply (run_inv K kh dresp A live_inv live_step_inv). unfold live_inv. simpl.
+    split; [constructor|]. split; [intros v []|auto].
+  Qed.
+End Live.
